@@ -286,6 +286,9 @@ def run(ctx):
     _line_mode_limits(ctx)
     _mechanism_acceptance(ctx, mechs)
     _text_bytes_agreement(ctx, mechs)
+    from .c09 import per_instance_registries
+    per_instance_registries(ctx, 'C06.D1', ('authentication', 'protocol', 'bus'),
+                            'server authenticators of different connections share state')
     ctx.floor('C06.D6', 3)
     from .c04 import shared_line_framing
     shared_line_framing(ctx, 'C06.D5', 'C06.D5')
